@@ -1,5 +1,100 @@
-(** C03 — stream and CRYPTO reassembly delivers exactly the sent byte sequence. *)
-From Coq Require Import List ZArith.
-From V Require Import Gen.Params FrameSorter.Model FrameSorter.InvCheck.
+(** C03 — stream and CRYPTO reassembly delivers exactly the sent byte sequence.
+    Only statements live here; each is closed by [exact] of a lemma proved elsewhere.
+    [S : Z -> Z] is the underlying byte string (an arbitrary function of the absolute
+    offset); a push is consistent when its data is S[off, off+n). *)
+From Coq Require Import List ZArith Permutation.
+From V Require Import Gen.Params FrameSorter.Model FrameSorter.InvCheck FrameSorter.Spec
+  FrameSorter.ProofsInvOk FrameSorter.ProofsRun.
 Import ListNotations.
 Open Scope Z_scope.
+
+(** ** Frame sorter *)
+
+(** [Inv] (gaps sorted, disjoint, non-touching, last one ends at MaxByteCount; queue keys
+    distinct and >= readPos, entries non-empty, pairwise disjoint, data = slice of S; every
+    offset >= readPos is in a gap xor in exactly one entry) holds initially and is preserved
+    by every consistent Push that returns nil and by every Pop. *)
+Theorem C03_sorter_inv_steps : forall S,
+  Inv S init /\
+  (forall s off n cb s', Inv S s -> 0 <= off -> 0 <= n -> off + n < MaxBC ->
+     Push s (slice S off n) off cb = (s', Ok) -> Inv S s') /\
+  (forall s s' out bug, Inv S s -> Pop s = (s', out, bug) -> Inv S s').
+Proof. exact sorter_inv_steps. Qed.
+Print Assumptions C03_sorter_inv_steps.
+
+(** ... hence in every state reachable by any history of consistent pushes and pops. *)
+Theorem C03_sorter_inv : forall S ops rs,
+  Forall valid_op ops -> srun S run_init ops = Some rs -> Inv S (r_st rs).
+Proof. exact sorter_inv. Qed.
+Print Assumptions C03_sorter_inv.
+
+(** Push refines set union: unless it returns the gap-limit error, the set of buffered
+    offsets becomes old ∪ ([off, off+n) ∩ [readPos, ∞)); no other result is possible
+    (in particular the model's Bug value, i.e. the "no gap found" panics, is unreachable). *)
+Theorem C03_sorter_refines_set_push : forall S s off n cb s' r,
+  Inv S s -> 0 <= off -> 0 <= n -> off + n < MaxBC ->
+  Push s (slice S off n) off cb = (s', r) ->
+  (r = Ok \/ r = TooManyGaps) /\
+  (r = Ok -> readPos s' = readPos s /\
+     forall x, cov (queue s') x <-> cov (queue s) x \/ (off <= x < off + n /\ readPos s <= x)).
+Proof. exact sorter_refines_push. Qed.
+Print Assumptions C03_sorter_refines_set_push.
+
+(** Pop returns S[readPos, readPos + len) — of positive length iff readPos is buffered —,
+    advances readPos by that length, removes exactly those offsets, and never reaches the
+    "read position higher than a gap" panic. *)
+Theorem C03_sorter_refines_set_pop : forall S s s' off d cb bug,
+  Inv S s -> Pop s = (s', (off, d, cb), bug) ->
+  bug = false /\ off = readPos s /\ d = slice S (readPos s) (len d) /\
+  (0 < len d <-> cov (queue s) (readPos s)) /\
+  readPos s' = readPos s + len d /\
+  (forall x, cov (queue s') x <-> cov (queue s) x /\ readPos s' <= x).
+Proof. exact sorter_refines_pop. Qed.
+Print Assumptions C03_sorter_refines_set_pop.
+
+(** The concatenation of everything Pop ever returned is S[0, readPos): the original bytes,
+    once, contiguously. *)
+Theorem C03_sorter_delivers : forall S ops rs,
+  Forall valid_op ops -> srun S run_init ops = Some rs ->
+  r_out rs = slice S 0 (readPos (r_st rs)).
+Proof. exact sorter_delivers. Qed.
+Print Assumptions C03_sorter_delivers.
+
+(** A history can only fail at a Push that returns the gap-limit error, with more than
+    MaxStreamFrameSorterGaps gaps. *)
+Theorem C03_sorter_fails_only_on_gap_limit : forall S ops,
+  Forall valid_op ops -> srun S run_init ops = None ->
+  exists pre off n cb rest rs s', ops = pre ++ SPush off n cb :: rest /\ srun S run_init pre = Some rs /\
+    Push (r_st rs) (slice S off n) off cb = (s', TooManyGaps) /\
+    MaxGaps < Z.of_nat (length (gaps s')).
+Proof. exact sorter_fails_only_on_gap_limit. Qed.
+Print Assumptions C03_sorter_fails_only_on_gap_limit.
+
+(** Buffers: with distinct callback ids, at every point of every history each id is in
+    exactly one place — fired, still attached to a queued entry, or handed to the reader by
+    Pop. So no callback fires twice, and none has fired while an entry still carries it. *)
+Theorem C03_buffers_once : forall S ops rs,
+  Forall valid_op ops -> NoDup (op_cbs ops) -> srun S run_init ops = Some rs ->
+  Permutation (fired (r_st rs) ++ live (queue (r_st rs)) ++ r_held rs) (op_cbs ops) /\
+  NoDup (fired (r_st rs) ++ live (queue (r_st rs)) ++ r_held rs).
+Proof. exact sorter_buffers_once. Qed.
+Print Assumptions C03_buffers_once.
+
+(** The executable checker evaluated after every step of the correspondence run is sound. *)
+Theorem C03_inv_ok_sound : forall S s, inv_ok S s = true -> Inv S s.
+Proof. exact inv_ok_sound. Qed.
+Print Assumptions C03_inv_ok_sound.
+
+(** Non-vacuity: a history with overlap, duplication, a cut below the copy threshold and
+    interleaved pops satisfies the hypotheses and delivers S[0,12). *)
+Example C03_sorter_example :
+  let ops := [SPush 4 4 (Some 0); SPush 0 6 (Some 1); SPop; SPush 2 10 (Some 2); SPush 4 4 (Some 3); SPop; SPop; SPop] in
+  Forall valid_op ops /\ NoDup (op_cbs ops) /\
+  exists rs, srun sbyte run_init ops = Some rs /\ r_out rs = slice sbyte 0 12 /\ readPos (r_st rs) = 12.
+Proof.
+  cbv zeta. split; [|split].
+  - repeat constructor; solve [vm_compute; first [reflexivity | intro; discriminate]].
+  - vm_compute. repeat constructor; simpl; intuition discriminate.
+  - eexists. split; [vm_compute; reflexivity|]. split; vm_compute; reflexivity.
+Qed.
+Print Assumptions C03_sorter_example.
